@@ -198,7 +198,7 @@ def render(doc, fmt) -> bytes:
         return {"xlsx": wx.write_xlsx, "ods": odf.write_ods}[fmt](doc)
     if k == "pages":
         if fmt == "pdf":
-            return misc.write_pdf(doc["pages"], doc.get("props"))
+            return misc.write_pdf(doc["pages"], doc.get("props"), images=doc.get("pdf_images"))
         if fmt == "rtf":
             return misc.write_rtf({"pages": [[["p", [["r", i] for i in ln]] for ln in pg] for pg in doc["pages"]]})
         if fmt == "epub":
@@ -344,7 +344,19 @@ def rich_doc(fmt, seed=0):
              "images": [{"target": pre + "i1.png", "part": part + "i1.png", "data": img1}]},
             {"name": word(6), "name_id": 6, "rows": [[["s", 7]]], "images": []}]}
     if fmt in ("pdf", "txt", "md", "csv", "tsv", "json"):
-        return {"kind": "pages", "props": props, "pages": [[[1, 2], [3]], [[4]]]}
+        d = {"kind": "pages", "props": props, "pages": [[[1, 2], [3]], [[4]]]}
+        if fmt == "pdf":     # images whose /ColorSpace is a name, an array with an indirect reference, a nested array
+            raw = bytes((x * 7 + seed) % 4 for x in range(6 * 5))
+            d["pdf_images"] = {0: [{"kind": "flate", "data": bytes(6 * 5 * 3), "w": 6, "h": 5},
+                                   {"kind": "flate", "data": bytes(6 * 5 * 3), "w": 6, "h": 5, "cs": "icc"}],
+                               1: [{"kind": "flate", "data": raw, "w": 6, "h": 5, "cs": "indexed-icc"}]}
+        return d
+    if fmt == "ppt":
+        # second slide: no title, one body placeholder and a free text box ("other" text); third: free text only
+        return {"kind": "deck", "props": props, "slides": [
+            {"shapes": [["title", [["r", 1]]], ["body", [[["r", 2]], [["r", 3]]]]], "notes": [["r", 4]]},
+            {"shapes": [["body", [[["r", 5]]]], ["text", [[["r", 6]]]], ["text", [[["r", 7]]]]], "notes": []},
+            {"shapes": [["text", [[["r", 8]]]]], "notes": [["r", 9]]}]}
     if fmt == "odf":
         return {"kind": "formula", "props": props, "ids": [[1, 2], [3, 4, 5]]}
     raise ValueError(fmt)
